@@ -4,7 +4,7 @@
    trace : 1 (outs dump)*     one block per op, see enc_out / dump. *)
 From Coq Require Import List NArith Bool.
 From V.common Require Import Wire.
-From V.Ts Require Import Model.
+From V.Ts Require Import Model Report.
 Import ListNotations.
 Open Scope N_scope.
 
@@ -95,7 +95,7 @@ Fixpoint run_trace (s : st) (tr : list (N * ev)) : list N :=
       enc_list enc_out (canon_outs os) ++ dump s' ++ run_trace s' t
   end.
 
-Definition run_case (l : list N) : list N :=
+Definition run_case_svc (l : list N) : list N :=
   match decode_case l with
   | Some (ka, T, n0, ops) => 1 :: run_trace (init ka T n0) ops
   | None => [0]
@@ -364,13 +364,177 @@ Definition judged (case trace : list N) : option ost :=
   | _, _ => None
   end.
 
-Definition prop_ok_C08 (case trace : list N) : bool :=
+Definition prop_ok_C08_svc (case trace : list N) : bool :=
   match decode_case case, trace with
   | None, [0] => true
   | _, _ => match judged case trace with Some o => o_ok8 o | None => false end
   end.
-Definition prop_ok_C09 (case trace : list N) : bool :=
+Definition prop_ok_C09_svc (case trace : list N) : bool :=
   match decode_case case, trace with
   | None, [0] => true
   | _, _ => match judged case trace with Some o => o_ok9 o | None => false end
   end.
+
+(* ====================================================================================
+   report level (case kind 2): the reporting side of ProtocolSet, see Report.v
+     case  : 2 nproto cap nops (tag a b c)*
+     trace : 2 (code got done qlens nbusy)*
+   ==================================================================================== *)
+Definition p_rop : parser rop :=
+  let* tag := pN in let* a := pN in let* b := pN in let* c := pN in
+  match tag with
+  | 1 => pret (RSubOpen a b (dec_opt c))
+  | 2 => pret (RSubFail a b c)
+  | 3 => pret (REst a)
+  | 4 => pret (RClosed a)
+  | 5 => pret (RDrain a b)
+  | _ => pfail
+  end.
+Definition rop_small (o : rop) : bool :=
+  match o with
+  | RSubOpen c p d => small c && small p && match d with Some i => small i | None => true end
+  | RSubFail c p i => small c && small p && small i
+  | REst c | RClosed c => small c
+  | RDrain p k => small p && (k <? 1000)
+  end.
+Definition rest_ids (l : list rop) : list N :=
+  flat_map (fun o => match o with REst c => [c] | _ => [] end) l.
+(* a connection reports "established" at most once (ConnectionHandle::downgrade panics otherwise) *)
+Definition decode_rcase (l : list N) : option (nat * nat * list rop) :=
+  match pall (let* kind := pN in let* n := pN in let* cap := pN in let* ops := plist p_rop in
+              pret (kind, n, cap, ops)) l with
+  | Some (kind, n, cap, ops) =>
+      if (kind =? 2) && (1 <=? n) && (n <=? 8) && (1 <=? cap) && (cap <=? 64) && forallb rop_small ops
+         && nodup_b (rest_ids ops)
+      then Some (N.to_nat n, N.to_nat cap, ops) else None
+  | None => None
+  end.
+
+Definition enc_item (i : item) : list N :=
+  match i with
+  | IEst c => [1; c; 0]
+  | IClosed c => [2; c; 0]
+  | IOpened c d => [3; c; enc_opt d]
+  | IFailure _ i => [4; 0; i]
+  end.
+Definition rdump (s : rst) : list N :=
+  enc_list (fun ch => [N.of_nat (length (rq ch))]) (r_ch s) ++ [N.of_nat (length (sort_nodup (waiters s)))].
+Fixpoint rrun_trace (s : rst) (l : list rop) : list N :=
+  match l with
+  | [] => []
+  | o :: t =>
+      let '(s', r) := rstep s o in
+      [o_code r] ++ enc_list enc_item (o_got r) ++ enc_list (fun c => [c; 0]) (o_done r) ++ rdump s'
+      ++ rrun_trace s' t
+  end.
+Definition run_report (l : list N) : list N :=
+  match decode_rcase l with
+  | Some (n, cap, ops) => 2 :: rrun_trace (rinit n cap) ops
+  | None => [0]
+  end.
+
+(* ---- the report-level oracle ---- *)
+Definition triple := (N * N * N)%type.
+Definition triple_eqb (a b : triple) : bool :=
+  (fst (fst a) =? fst (fst b)) && (snd (fst a) =? snd (fst b)) && (snd a =? snd b).
+Fixpoint prefix_b (a b : list triple) : bool :=
+  match a, b with
+  | [], _ => true
+  | x :: a', y :: b' => triple_eqb x y && prefix_b a' b'
+  | _ :: _, [] => false
+  end.
+Definition p_triple : parser triple := let* a := pN in let* b := pN in let* c := pN in pret (a, b, c).
+Record rstepobs := mkRS { rs_code : N; rs_got : list triple; rs_done : list (N * N); rs_qlens : list N; rs_busy : N }.
+Definition p_rstep : parser rstepobs :=
+  let* code := pN in let* got := plist p_triple in
+  let* dn := plist (let* c := pN in let* rc := pN in pret (c, rc)) in
+  let* ql := plist pN in let* nb := pN in pret (mkRS code got dn ql nb).
+
+Record rost := mkRO { ro_acc : list (list triple); ro_del : list (list triple); ro_busy : list N;
+                      ro_last : list N; ro_ok : bool }.
+Definition app_at (n : nat) (x : list triple) (l : list (list triple)) : list (list triple) :=
+  upd n (fun old => old ++ x) l.
+Definition rjudge_step (nproto cap : nat) (o : rost) (op : rop) (ob : rstepobs) : rost :=
+  let is_busy c := mem c (ro_busy o) in
+  let known p := Nat.ltb (N.to_nat p) nproto in
+  let started := (rs_code ob =? 0) || (rs_code ob =? 1) in
+  (* the verdict on the result code: a report on a free connection to a known protocol is
+     accepted (completed or waiting) — it never fails and is never dropped *)
+  let code_ok :=
+    match op with
+    | RSubOpen c p _ | RSubFail c p _ =>
+        if is_busy c then rs_code ob =? 2 else if known p then started else rs_code ob =? 3
+    | REst c | RClosed c => if is_busy c then rs_code ob =? 2 else started
+    | RDrain _ _ => rs_code ob =? 0
+    end in
+  let wire : option (N * list triple) :=    (* which protocol (None = all), which event *)
+    match op with
+    | RSubOpen c p d => Some (p + 1, [(3, c, enc_opt d)])
+    | RSubFail c p i => Some (p + 1, [(4, 0, i)])
+    | REst c => Some (0, [(1, c, 0)])
+    | RClosed c => Some (0, [(2, c, 0)])
+    | RDrain _ _ => None
+    end in
+  let acc' :=
+    if started then
+      match wire with
+      | Some (0, ev) => map (fun a => a ++ ev) (ro_acc o)
+      | Some (p1, ev) => app_at (N.to_nat (p1 - 1)) ev (ro_acc o)
+      | None => ro_acc o
+      end
+    else ro_acc o in
+  let del' := match op with
+              | RDrain p _ => app_at (N.to_nat p) (rs_got ob) (ro_del o)
+              | _ => ro_del o
+              end in
+  let got_ok := match op with RDrain _ _ => true | _ => match rs_got ob with [] => true | _ => false end end in
+  let conn_of := match op with RSubOpen c _ _ | RSubFail c _ _ | REst c | RClosed c => Some c | RDrain _ _ => None end in
+  let busy1 := match conn_of with
+               | Some c => if rs_code ob =? 1 then c :: ro_busy o else ro_busy o
+               | None => ro_busy o
+               end in
+  let done_ok := forallb (fun d : N * N => (snd d =? 0) && mem (fst d) busy1) (rs_done ob) in
+  let busy2 := filter (fun c => negb (existsb (fun d : N * N => fst d =? c) (rs_done ob))) busy1 in
+  let ok :=
+    code_ok && got_ok && done_ok &&
+    (* received so far is a prefix of accepted so far, per protocol: in order, no loss, no duplicate *)
+    list_eqb (fun d a => prefix_b d a) del' acc' && (Nat.eqb (length del') (length acc')) &&
+    forallb (fun q => q <=? N.of_nat cap) (rs_qlens ob) &&
+    (rs_busy ob =? N.of_nat (length busy2)) in
+  mkRO acc' del' busy2 (rs_qlens ob) (ro_ok o && ok).
+Fixpoint rjudge (nproto cap : nat) (o : rost) (ops : list rop) (obs : list rstepobs) : rost :=
+  match ops, obs with
+  | op :: t, ob :: ob' => rjudge nproto cap (rjudge_step nproto cap o op ob) t ob'
+  | _, _ => o
+  end.
+Fixpoint all3 (a d : list (list triple)) (q : list N) : bool :=
+  match a, d, q with
+  | [], [], [] => true
+  | x :: a', y :: d', n :: q' => (N.of_nat (length x) =? N.of_nat (length y) + n) && all3 a' d' q'
+  | _, _, _ => false
+  end.
+Definition report_ok (case trace : list N) : bool :=
+  match decode_rcase case, trace with
+  | Some (n, cap, ops), 2 :: body =>
+      match pall (prep (length ops) p_rstep) body with
+      | Some obs =>
+          let o := rjudge n cap (mkRO (repeat [] n) (repeat [] n) [] (repeat 0 n) true) ops obs in
+          ro_ok o &&
+          (* when no report is left waiting: accepted = received + queued, per protocol *)
+          match ro_busy o with
+          | [] => all3 (ro_acc o) (ro_del o) (ro_last o)
+          | _ => true
+          end
+      | None => false
+      end
+  | None, [0] => true
+  | _, _ => false
+  end.
+
+(* ---- dispatch on the case kind ---- *)
+Definition run_case (l : list N) : list N :=
+  match l with 2 :: _ => run_report l | _ => run_case_svc l end.
+Definition prop_ok_C08 (case trace : list N) : bool :=
+  match case with 2 :: _ => report_ok case trace | _ => prop_ok_C08_svc case trace end.
+Definition prop_ok_C09 (case trace : list N) : bool :=
+  match case with 2 :: _ => true | _ => prop_ok_C09_svc case trace end.
